@@ -796,7 +796,12 @@ func (e *engine) oneStepEvalClause(clause ast.Clause) ([]DerivedTemporalFact, er
 	for _, sol := range solutions {
 		head, err := functional.EvalAtom(clause.Head, sol)
 		if err != nil {
-			return nil, err
+			if clause.Transform == nil || !clause.Transform.IsLetTransform() {
+				return nil, err
+			}
+			// The head may apply a function to a variable that the let-transform defines.
+			// It is evaluated once the transform has produced the value.
+			head = clause.Head.ApplySubst(sol).(ast.Atom)
 		}
 
 		// Resolve temporal annotation
